@@ -115,6 +115,7 @@ class Project:
         self.stale_ir = None
         self.alias = None  # a symlink to root through which every file is named
         self.extra = []  # further target files of an already given kind: dict(kind, path, pre)
+        self.def_name = dict(DEF_NAME)  # simple name of the definition of each kind in this project
 
     def args(self, kinds=None):
         kinds = kinds or [k for k in KINDS if k in self.files]
@@ -145,6 +146,9 @@ def make_project(rng, root, truth, prestates, method=False, rich=False, kinds=KI
     crlf_files: about a third of the pre-existing files use CRLF line endings."""
     p = Project(root)
     p.truth, p.method = truth, method
+    if rng.random() < 0.35:
+        # names other than the emitters' own defaults (ConfigClass / set_cli_args), as real projects have
+        p.def_name = {"argparse_function": "build_cli", "class": "TrainConfig", "function": "fit_model"}
     g = sync_ir_gen(rng, wild, with_return)
     if ir is None:
         ir, _ = g.ir()
@@ -163,14 +167,15 @@ def make_project(rng, root, truth, prestates, method=False, rich=False, kinds=KI
                     prm["doc"] = "outdated zqstale words about " + n
             stale_prose_only = True
     p.truth_ir, p.stale_ir = ir, stale_ir
-    feats = {"truth": truth, "method": method, "rich": rich, "n_kinds": len(kinds), "wild": wild, "stale_prose_only": stale_prose_only}
+    feats = {"truth": truth, "method": method, "rich": rich, "n_kinds": len(kinds), "wild": wild, "stale_prose_only": stale_prose_only,
+             "custom_names": p.def_name != DEF_NAME}
     todo = [(kind, os.path.join(root, FILE_OF[kind]), "truth" if kind == truth else prestates[kind], False) for kind in kinds]
     if extra_same_kind:
         # a second target file of the truth's own kind, whose path sorts BEFORE the truth file's
         todo.append((truth, os.path.join(root, "a_more_" + FILE_OF[truth]), rng.choice(["stale", "absent", "missing", "agreeing", "empty"]), True))
     for kind, fn, state, is_extra in todo:
         is_method = method and kind == "function"
-        name = DEF_NAME[kind]
+        name = p.def_name[kind]
         if is_extra:
             p.extra.append({"kind": kind, "path": fn, "pre": state})
         else:
@@ -188,7 +193,7 @@ def make_project(rng, root, truth, prestates, method=False, rich=False, kinds=KI
         lines = list(before)
         func_before = any(l.startswith("def ") for l in before) or any(l.startswith("    def ") for l in before)
         if state != "absent":
-            src = definition_src(kind, use_ir, method=is_method)
+            src = definition_src(kind, use_ir, name=name, method=is_method)
             if is_method:
                 lines += ["class C_holder(object):", '    """holder zqdoc"""', "    zq_sibling_attr = 1", "",
                           "    def zq_sibling_before(self, q=1):", "        return q", ""] if rng.random() < 0.5 else \
